@@ -21,6 +21,9 @@ TARGETED = {
  "C01_r6": ["C01"], "C02_r6": ["C02"], "C03_r6": ["C03"], "C04_r6": ["C04"], "C05_r6": ["C05"], "C06_r6": ["C09"], "C07_r6": ["C09"],
  "C08_r6": ["C08"], "C09_r6": ["C09"], "C10_r6": ["C10"], "C11_r6": ["C11"], "C12_r6": ["C12"], "C13_r6": ["C13"], "C14_r6": ["C14"],
  "C15_r6": ["C15"], "C16_r6": ["C16"], "C17_r6": ["C17"], "C18_r6": ["C18"], "C19_r6": ["C19", "C01"], "C20_r6": ["C20"],
+ "C01_r7": ["C01"], "C02_r7": ["C02"], "C03_r7": ["C03"], "C04_r7": ["C04"], "C05_r7": ["C05"], "C06_r7": ["C06"], "C07_r7": ["C07"],
+ "C08_r7": ["C08"], "C09_r7": ["C09"], "C10_r7": ["C10"], "C11_r7": ["C11"], "C12_r7": ["C12"], "C13_r7": ["C13"], "C14_r7": ["C14"],
+ "C15_r7": ["C15"], "C16_r7": ["C16"], "C17_r7": ["C17"], "C18_r7": ["C18"], "C19_r7": ["C19", "C04"], "C20_r7": ["C20"],
 }
 STRENGTHENED = {
  "C02": "names with escaped braces added to the C02 / C03 / C17 corpora (first run: missed by C02 and C03)",
@@ -82,6 +85,20 @@ STRENGTHENED = {
  "C18_r6": "user error functions named like plausible generated helpers (not_found, parse_error, from_str ...) added to C18 (first run: missed)",
  "C19_r6": "a fifth build configuration in C19: look-alikes of Result / Ok / AsRef / Send / PhantomData next to the enum (first run: caught only by C01's hostile twins)",
  "C20_r6": "integer props of every size and spelling (above i64, u64::MAX, u128, hex, suffixed) added to C20 (first run: missed)",
+ "C02_r7": "a disabled (or default) variant whose name is a spelling of a LATER enabled variant added to C01 / C02 (first run: missed)",
+ "C03_r7": "ties and repeats among the serialize literals of one variant (the last of the longest wins) added to C03 (first run: missed)",
+ "C04_r7": "a blanket iterator-extension trait with a method `get` declared next to the enum (hostile scope `IterGet`) (first run: missed)",
+ "C05_r7": "#[strum{..}] and #[strum[..]] delimiters, in C04 C05 C08 and at random in every string corpus (first run: missed)",
+ "C08_r7": "`disabled` / `default` / bare flags passed in as `meta` fragments of a macro_rules! expansion (first run: missed)",
+ "C10_r7": "non-ASCII identifiers with digits as EnumTable variants (first run: missed)",
+ "C11_r7": "default + transparent (+ to_string) on ONE variant added to C11 (first run: missed)",
+ "C12_r7": "17 / 20 / 33 spellings on one variant whose own flag differs from the enum's added to C12 (first run: missed)",
+ "C13_r7": "user macros named like std macros (matches!, assert!, concat!, write! ...) declared above the enum (hostile scope) (first run: missed)",
+ "C14_r7": "empty message / detailed_message literals added to C14 (first run: missed)",
+ "C17_r7": "placeholders that name NO field (a const or static of the scope; a field used only as a `$` width) added to C17, oracle written in the same scope (first run: missed)",
+ "C18_r7": "the enum and its error function declared inside a FUNCTION BODY with a module-level function of the same name next to it (first run: missed)",
+ "C19_r7": "look-alikes IterGet / matches! / assert! added to C19's fifth build configuration (first run: caught only by C04's hostile twins)",
+ "C20_r7": "lifetime parameters whose only users are disabled variants added to C20 (first run: missed)",
 }
 matrix = {}
 mp = os.path.join(V, "matrix.tsv")
@@ -97,7 +114,7 @@ for name in sorted(os.listdir(V)):
     ver = open(os.path.join(d, ".verify")).read().split() if os.path.exists(os.path.join(d, ".verify")) else ["?", "?", "?"]
     notes = open(os.path.join(d, "notes.md")).read() if os.path.exists(os.path.join(d, "notes.md")) else ""
     meta = {
-        "property": name.split("_")[0], "round": 6 if name.endswith("_r6") else 5 if name.endswith("_r5") else 4 if name.endswith("_r4") else (3 if name.endswith("_r3") else (2 if name.endswith("_r2") else 1)),
+        "property": name.split("_")[0], "round": 7 if name.endswith("_r7") else 6 if name.endswith("_r6") else 5 if name.endswith("_r5") else 4 if name.endswith("_r4") else (3 if name.endswith("_r3") else (2 if name.endswith("_r2") else 1)),
         "what_it_needs_to_manifest": notes[:2500],
         "confirmed_on_current_HEAD": {"demo_without_change_rc": ver[0], "existing_suite_with_change_rc": ver[1], "demo_with_change_rc": ver[2],
                                       "how": "tools/seed_verify_all.sh (scratch worktree of /repo HEAD; cargo test -p strum_tests --offline --test seeded_demo before / after "
